@@ -1,6 +1,6 @@
 use crate::{
     context,
-    util::{Compact, TimeUntil},
+    util::{Compact, Deadlines, TimeUntil},
 };
 use fnv::FnvHashMap;
 use std::{
@@ -8,14 +8,14 @@ use std::{
     task::{Context, Poll},
 };
 use tokio::sync::oneshot;
-use tokio_util::time::delay_queue::{self, DelayQueue};
+use tokio_util::time::delay_queue;
 use tracing::Span;
 
 /// Requests already written to the wire that haven't yet received responses.
 #[derive(Debug)]
 pub struct InFlightRequests<Resp> {
     request_data: FnvHashMap<u64, RequestData<Resp>>,
-    deadlines: DelayQueue<u64>,
+    deadlines: Deadlines,
 }
 
 impl<Resp> Default for InFlightRequests<Resp> {
@@ -68,7 +68,7 @@ impl<Res> InFlightRequests<Res> {
     ) -> Result<(), AlreadyExistsError> {
         match self.request_data.entry(request_id) {
             hash_map::Entry::Vacant(vacant) => {
-                let timeout = ctx.deadline.time_until().min(crate::util::MAX_TIMEOUT);
+                let timeout = ctx.deadline.time_until();
                 let deadline_key = self.deadlines.insert(request_id, timeout);
                 vacant.insert(RequestData {
                     ctx,
